@@ -930,7 +930,8 @@ pub fn payloads(g: &mut G, tag: &str) -> Vec<(&'static str, Vec<u8>)> {
         // bytes that are not UTF-8 next to escape sequences (finding Z)
         (
             "sgr-bytes",
-            [b"\x1b[31m".as_slice(), tag.as_bytes(), b"\xff\xfe-red\x1b[0m\n\xc3\x28", tag.as_bytes(), b"\x1b[1;4m\x80\x1b[m\n"].concat(),
+            // (0x9b is the 8-bit CSI - and an ordinary continuation byte of UTF-8: "ě", U+1F61B)
+            [b"\x1b[31m".as_slice(), tag.as_bytes(), b"\xff\xfe-red\x1b[0m\n\xc3\x28", tag.as_bytes(), b"\x1b[1;4m\x80\x1b[m\nm\xc4\x9bst\xc4\x9b \xf0\x9f\x98\x9b je kr\xc4\x9bsn\xc4\x9b \x9b1mlone\n"].concat(),
         ),
         // control characters that are no escape sequences next to real ones (finding P)
         (
